@@ -15,29 +15,40 @@ from . import common
 from .common import Corr, f2hex, hex2f, flist, parse_list
 
 ID = "C04"
-LEAN_MODULES = ["TempestVerif.Props.C04"]
-RULE = ("generated histories: T in 1..12 iterations, batch sizes n_t in 1..40 (unequal unless T=1 or a deliberate equal-size case), "
-        "beta_t unsorted in [0,1] incl. repeated 0 and 1, z_t uniform in +-50 or +-1e5, log-likelihoods at scales 10 / 1e3 / 1e6 (both signs) "
-        "with clusters of equal and 1-ulp-apart values, target beta in {0, 1, interior}; each history is committed to a REAL StateManager through "
-        "set_current + commit_current_to_history and compute_logw_and_logz(beta, normalize in {False, True}) is compared with the Lean model "
-        "evaluated at Float, tolerance |d| <= 1e-9*(1+scale), scale = largest magnitude among the intermediates (|beta*l|, |beta_t*l|, |z_t|, |b|) "
-        "of that particle (raw weights) or of the whole history (normalised weights, logz). Suite 'sampler': short real Sampler runs, "
-        "posterior(return_logw=True, trim_importance_weights=False) and evidence() vs the model on the exported history. "
+LEAN_MODULES = ["TempestVerif.Props.C04", "TempestVerif.Props.C04Round"]
+RULE = ("suite weights-T: generated histories, T in 1..12 iterations (every value), batch sizes n_t in 1..40 (unequal unless T=1 or a deliberate "
+        "equal-size case), beta_t unsorted in [0,1] incl. repeated 0 and 1, z_t uniform in +-50 or +-1e5, log-likelihoods at scales 10 / 1e3 / 1e6 "
+        "(both signs) with clusters of equal and 1-ulp-apart values, target beta in {0, 1, interior}; 20% of the histories hand integral beta_t / z_t / beta "
+        "over as Python ints; each history is committed to a REAL StateManager through set_current + commit_current_to_history and "
+        "compute_logw_and_logz(beta, normalize in {False, True}) is compared with the Lean model evaluated at Float, tolerance |d| <= 1e-9*(1+scale), "
+        "scale = largest magnitude among the intermediates (|beta*l|, |beta_t*l|, |z_t|, |b|) of that particle (raw weights) or of the whole history "
+        "(normalised weights, logz); equal-size histories are additionally read back through compute_results()['logw']; the empty history is matched "
+        "structurally (([], -inf) vs ([], none)). Suite degenerate-T (outside the statement, n_t = 0): histories with empty batches and with all batches "
+        "empty (Python logz = NaN vs model none). Suite sampler-T: short real Sampler runs, posterior(return_logw=True, trim_importance_weights=False), "
+        "evidence() and three further compute_logw_and_logz targets on the live state vs the model on the exported history. "
         "Non-trivial = T >= 2 with unequal batch sizes or distinct beta_t.")
 MODELLED = ["np.logaddexp is modelled in numpy's max-shifted form with log(1+exp t) for log1p(exp t) and log 2 for the constant LOGE2 "
-            "(equal over the reals; float difference <= a few ulp, absorbed by the tolerance)",
+            "(equal over the reals; float difference <= a few ulp, absorbed by the tolerance; in the rounded-arithmetic theorems log1p(e) lies "
+            "inside the range proved for log(rnd(1+e)), so the bounds hold a fortiori but the modelled expression is not the libm call)",
             "np.logaddexp.reduce is modelled as a left fold from the first element",
-            "IEEE rounding of the individual operations (theorems are over exact reals; the explicit bound C04_bounds "
-            "|logw| <= |beta*l| + max|b| + log T < 3.2e6 shows the distance to overflow)",
-            "histories with non-finite z_t or logL, or with an empty batch, are outside the statement and not generated"]
-ASSUMPTIONS = ["every committed iteration carries beta, logz and a 1-D logl array (what execute_iteration commits)"]
+            "np.exp / np.log / float64 + - * are the ScT operations: exact reals in Props.C04, an arbitrary rounding function obeying the standard "
+            "model (|rnd x - x| <= u|x| + eta for |x| <= Omega, unconstrained above) in Props.C04Round, IEEE doubles in the correspondence. That IEEE "
+            "binary64 with numpy's libm satisfies that standard model with u = 2^-52 is the residual assumption of the finiteness clause",
+            "int -> float conversion of n_t, N (np.log of an int64) is taken to be exact (true below 2^53)",
+            "how _history is assembled (set_current / commit_current_to_history / get_history) is not in this model: it is C17's StateMgr model; here "
+            "the tie goes through the public API on the real object",
+            "histories with non-finite z_t or logL are outside the statement and not generated; empty batches only in suite degenerate-T"]
+ASSUMPTIONS = ["every committed iteration carries beta, logz and a 1-D logl array (what execute_iteration commits); a commit that leaves logz None "
+               "misaligns the per-key lists and is outside the statement",
+               "T >= 1 and every n_t >= 1 (hypothesis WF of the theorems = the statement's quantifier)"]
 
 TOL = 1e-9
 
 
 # ------------------------------------------------------------------ real code
-def _commit(hist):
-    """hist = [(beta_t, logz_t, [logl...]), ...] -> a real StateManager populated through its public API"""
+def _commit(hist, ints=False):
+    """hist = [(beta_t, logz_t, [logl...]), ...] -> a real StateManager populated through its public API.
+    ints=True hands integral beta_t / logz_t over as Python ints (what `beta = 0` style callers do)."""
     from tempest.state_manager import StateManager
     sm = StateManager(n_dim=1)
     for t, (b, z, ls) in enumerate(hist):
@@ -45,19 +56,31 @@ def _commit(hist):
         sm.set_current("u", np.full((n, 1), 0.5))
         sm.set_current("x", np.zeros((n, 1)))
         sm.set_current("logl", np.array(ls, dtype=float))
-        sm.set_current("beta", float(b))
-        sm.set_current("logz", float(z))
+        sm.set_current("beta", int(b) if ints and float(b).is_integer() else float(b))
+        sm.set_current("logz", int(z) if ints and float(z).is_integer() and abs(z) < 2 ** 53 else float(z))
         sm.set_current("iter", t)
         sm.commit_current_to_history()
     return sm
 
 
-def _impl(hist, beta, normalize):
+def _impl(hist, beta, normalize, ints=False):
+    sm = _commit(hist, ints)
+    with warnings.catch_warnings():
+        warnings.simplefilter("ignore")
+        b = int(beta) if ints and float(beta).is_integer() else float(beta)
+        logw, logz = sm.compute_logw_and_logz(b, normalize=bool(normalize))
+    return [float(x) for x in np.asarray(logw).ravel()], float(logz)
+
+
+def _impl_results(hist):
+    """compute_results()['logw'] (beta = 1, normalised) on a real StateManager; equal batch sizes only
+    (get_history of a ragged key cannot be stacked by numpy)"""
     sm = _commit(hist)
     with warnings.catch_warnings():
         warnings.simplefilter("ignore")
-        logw, logz = sm.compute_logw_and_logz(float(beta), normalize=bool(normalize))
-    return [float(x) for x in np.asarray(logw).ravel()], float(logz)
+        r = sm.compute_results()
+        _, logz = sm.compute_logw_and_logz(1.0)
+    return [float(x) for x in np.asarray(r["logw"]).ravel()], float(logz)
 
 
 # ------------------------------------------------------------------ model (driver) side
@@ -100,6 +123,8 @@ def _scales(hist, beta):
         for l in ls:
             s = abs(beta * l)
             for (bt, zt, _), nt in zip(hist, n):
+                if nt == 0:
+                    continue
                 s = max(s, abs(l * bt), abs(zt), abs(l * bt - zt + math.log(nt) - math.log(N)))
             out.append(s)
     return out, (max(out) if out else 0.0)
@@ -136,7 +161,7 @@ def _gen_logl(rng, n, scale):
 
 
 def _gen_history(rng, max_T=12, max_n=40):
-    T = rng.choice([1, 2, 2, 3, 3, 4, 5, 6, 8, 10, 12])
+    T = rng.choice([1, 2, 2, 3, 3, 4, 5, 6, 7, 8, 9, 10, 11, 12])
     T = min(T, max_T)
     k = rng.random()
     if k < 0.08:
@@ -202,6 +227,12 @@ def _compare(c, hist, beta, normalize, impl, ans, extra=None):
         if not ok:
             c.disagree(impl=[[f2hex(x) for x in iw], repr(iz)], model=ans, **info)
         return ok
+    if sum(len(ls) for _, _, ls in hist) == 0:
+        # every stored batch empty: Python gives (array([]), nan) [-inf - (-inf)], the model ([], none)
+        ok = (len(iw) == 0 and math.isnan(iz) and mw == [] and mz is None)
+        if not ok:
+            c.disagree(impl=[[f2hex(x) for x in iw], repr(iz)], model=ans, **info)
+        return ok
     per, glob = _scales(hist, beta)
     if len(mw) != len(iw) or mz is None:
         c.disagree(impl=[len(iw), repr(iz)], model=[len(mw), repr(mz)], **info)
@@ -236,10 +267,18 @@ def _corr_generated(tier, drv):
         hist, beta = _gen_history(rng)
         nt = _nontrivial(hist)
         sizes = [len(ls) for _, _, ls in hist]
+        ints = rng.random() < 0.2
         for nrm in (False, True):
             lines.append(_op(hist, beta, nrm))
-            cases.append((hist, beta, nrm, _impl(hist, beta, nrm)))
+            cases.append((hist, beta, nrm, _impl(hist, beta, nrm, ints)))
             c.count("evaluations_normalize" if nrm else "evaluations_raw")
+        if ints:
+            c.count("integral_values_passed_as_int")
+        if len(set(sizes)) == 1:
+            # the cached-results path: compute_results()["logw"] is the beta=1 normalised weight array
+            lines.append(_op(hist, 1.0, True))
+            cases.append((hist, 1.0, True, _impl_results(hist)))
+            c.count("evaluations_via_compute_results")
         c.case((_hist_json(hist), f2hex(beta)), nt)
         c.count(f"T={len(hist)}")
         c.count("N<=20" if sum(sizes) <= 20 else "N<=100" if sum(sizes) <= 100 else "N>100")
@@ -255,6 +294,38 @@ def _corr_generated(tier, drv):
         if hist and len(hist) <= 3 and sum(len(ls) for _, _, ls in hist) <= 5:
             c.sample({"history(beta_t,logz_t,logl)": [[b, z, ls] for b, z, ls in hist], "beta": beta, "normalize": nrm,
                       "impl_logw": impl[0], "impl_logz": impl[1], "model": ans})
+    return c
+
+
+def _corr_degenerate(tier, drv):
+    """outside the statement (n_t >= 1), but the model claims to mirror the code there too: histories with empty
+    batches (weight-zero components via log 0 = -inf) and histories whose batches are all empty (logz = NaN)"""
+    n = 80 if tier == "quick" else 1500
+    rng = common.rng_for("C04.degenerate")
+    c = Corr("degenerate-T", "toleranced Float (1e-9*(1+scale)); NaN/-inf evidence matched structurally")
+    lines, cases = [], []
+    for i in range(n):
+        hist, beta = _gen_history(rng, max_T=6, max_n=8)
+        hist = [list(b) for b in hist]
+        if i % 8 == 0:
+            for b in hist:
+                b[2] = []
+            c.count("all_batches_empty")
+        else:
+            k = rng.randrange(len(hist) + 1)
+            hist.insert(k, [rng.random(), rng.uniform(-5, 5), []])
+            if rng.random() < 0.3:
+                hist.insert(rng.randrange(len(hist) + 1), [0.0, 0.0, []])
+            c.count("first_batch_empty" if not hist[0][2] else "inner_batch_empty")
+        hist = [tuple(b) for b in hist]
+        for nrm in (False, True):
+            lines.append(_op(hist, beta, nrm))
+            cases.append((hist, beta, nrm, _impl(hist, beta, nrm)))
+        c.case((_hist_json(hist), f2hex(beta)), False)
+    res = drv.batch(lines)
+    for (hist, beta, nrm, impl), ans in zip(cases, res):
+        _compare(c, hist, beta, nrm, impl, ans)
+        c.count("evaluations")
     return c
 
 
@@ -328,7 +399,7 @@ def _corr_sampler(tier, drv):
 
 def correspond(tier):
     drv = common.Driver()
-    return [_corr_generated(tier, drv), _corr_sampler(tier, drv)]
+    return [_corr_generated(tier, drv), _corr_degenerate(tier, drv), _corr_sampler(tier, drv)]
 
 
 # ------------------------------------------------------------------ property oracle on the real code
